@@ -1,2 +1,513 @@
+(* Lemmas about Meta/Model_Schema.v (C43). *)
 From LanceV Require Import Common.Base Meta.Model_Schema.
 Local Open Scope N_scope.
+
+(* ------------------------------------------------------------------ basics *)
+
+Lemma str_eqb_eq (a b : str) : str_eqb a b = true <-> a = b.
+Proof. unfold str_eqb. apply list_eqb_eq. intros x y. apply N.eqb_eq. Qed.
+
+Lemma str_eqb_refl (a : str) : str_eqb a a = true.
+Proof. apply str_eqb_eq. reflexivity. Qed.
+
+Lemma str_eqb_neq (a b : str) : str_eqb a b = false <-> a <> b.
+Proof.
+  split.
+  - intros H E. apply str_eqb_eq in E. congruence.
+  - intros H. destruct (str_eqb a b) eqn:E; [apply str_eqb_eq in E; contradiction | reflexivity].
+Qed.
+
+(* induction principle for the rose tree *)
+Lemma field_ind' (P : field -> Prop) :
+  (forall a ch, Forall P ch -> P (Fld a ch)) -> forall f, P f.
+Proof.
+  intros H. fix IH 1. intros [a ch]. apply H.
+  induction ch as [|c r IHr]; constructor; [apply IH | exact IHr].
+Qed.
+
+(* ------------------------------------------------------------------ A. field paths *)
+
+Definition no_special (s : str) : Prop := forall c, In c s -> c <> BT /\ c <> DOT.
+
+Lemma has_char_false (c : N) (s : str) : has_char c s = false <-> ~ In c s.
+Proof.
+  unfold has_char. split.
+  - intros H Hin. assert (E : existsb (N.eqb c) s = true).
+    { apply existsb_exists. exists c. split; [exact Hin | apply N.eqb_refl]. }
+    congruence.
+  - intros H. destruct (existsb (N.eqb c) s) eqn:E; [|reflexivity].
+    apply existsb_exists in E as [x [Hx Hc]]. apply N.eqb_eq in Hc. subst. contradiction.
+Qed.
+
+Lemma needs_quote_false (s : str) : needs_quote s = false <-> no_special s.
+Proof.
+  unfold needs_quote, no_special. rewrite orb_false_iff, !has_char_false. split.
+  - intros [H1 H2] c Hc. split; intros ->; contradiction.
+  - intros H. split; intros Hin; apply H in Hin; destruct Hin; congruence.
+Qed.
+
+Lemma parse_go_unquoted (s tail cur : str) (res : list str) :
+  no_special s -> parse_go (s ++ tail) cur false res = parse_go tail (cur ++ s) false res.
+Proof.
+  revert cur. induction s as [|c r IH]; intros cur Hs.
+  - cbn [app]. rewrite app_nil_r. reflexivity.
+  - assert (Hc : c <> BT /\ c <> DOT) by (apply Hs; left; reflexivity).
+    destruct Hc as [Hb Hd].
+    cbn [app parse_go].
+    destruct (c =? BT) eqn:E1; [apply N.eqb_eq in E1; contradiction|].
+    destruct (c =? DOT) eqn:E2; [apply N.eqb_eq in E2; contradiction|].
+    cbn [andb]. rewrite IH.
+    + rewrite <- app_assoc. reflexivity.
+    + intros x Hx. apply Hs. right. exact Hx.
+Qed.
+
+Definition tail_ok (tail : str) : Prop := tail = [] \/ exists t, tail = DOT :: t.
+
+Lemma parse_go_quoted (s tail cur : str) (res : list str) :
+  tail_ok tail ->
+  parse_go (escape_bt s ++ BT :: tail) cur true res = parse_go tail (cur ++ s) false res.
+Proof.
+  intros Ht. revert cur. induction s as [|c r IH]; intros cur.
+  - cbn [escape_bt flat_map app]. rewrite app_nil_r.
+    cbn [parse_go]. change (BT =? BT) with true. cbv iota.
+    destruct Ht as [-> | [t ->]]; [reflexivity|].
+    change (DOT =? BT) with false. change (DOT =? DOT) with true. cbv iota. reflexivity.
+  - unfold escape_bt. cbn [flat_map]. fold (escape_bt r).
+    destruct (c =? BT) eqn:E.
+    + apply N.eqb_eq in E. subst c.
+      cbn [app parse_go]. change (BT =? BT) with true. cbv iota.
+      rewrite IH. rewrite <- app_assoc. reflexivity.
+    + cbn [app parse_go]. rewrite E. cbn [negb andb]. rewrite andb_false_r.
+      rewrite IH. rewrite <- app_assoc. reflexivity.
+Qed.
+
+Lemma parse_go_seg (seg tail : str) (res : list str) :
+  seg <> [] -> tail_ok tail ->
+  parse_go (fmt_seg seg ++ tail) [] false res = parse_go tail seg false res.
+Proof.
+  intros Hne Ht. unfold fmt_seg. destruct (needs_quote seg) eqn:E.
+  - unfold quote_seg. cbn [app parse_go]. change (BT =? BT) with true. cbv iota.
+    rewrite <- app_assoc. cbn [app]. rewrite parse_go_quoted by exact Ht. reflexivity.
+  - apply needs_quote_false in E. rewrite parse_go_unquoted by exact E. reflexivity.
+Qed.
+
+Lemma parse_go_after_seg_nil (seg : str) (res : list str) :
+  seg <> [] -> parse_go [] seg false res = Ok (res ++ [seg]).
+Proof. intros H. destruct seg; [contradiction | reflexivity]. Qed.
+
+Lemma parse_go_after_seg_dot (seg t : str) (res : list str) :
+  seg <> [] -> parse_go (DOT :: t) seg false res = parse_go t [] false (res ++ [seg]).
+Proof.
+  intros H. cbn [parse_go]. change (DOT =? BT) with false. change (DOT =? DOT) with true.
+  cbn [negb andb]. destruct seg; [contradiction | reflexivity].
+Qed.
+
+Lemma parse_go_format (p : list str) (res : list str) :
+  p <> [] -> Forall (fun s => s <> []) p ->
+  parse_go (format_field_path p) [] false res = Ok (res ++ p).
+Proof.
+  unfold format_field_path. revert res. induction p as [|s r IH]; intros res Hne Hall; [contradiction|].
+  inversion Hall as [|? ? Hs Hr]; subst.
+  destruct r as [|s2 r'].
+  - cbn [map join_dot]. rewrite <- (app_nil_r (fmt_seg s)).
+    rewrite parse_go_seg; [|exact Hs|left; reflexivity].
+    apply parse_go_after_seg_nil. exact Hs.
+  - change (join_dot (map fmt_seg (s :: s2 :: r'))) with (fmt_seg s ++ DOT :: join_dot (map fmt_seg (s2 :: r'))).
+    rewrite parse_go_seg; [|exact Hs|right; eexists; reflexivity].
+    rewrite parse_go_after_seg_dot by exact Hs.
+    rewrite IH; [|discriminate|exact Hr].
+    rewrite <- app_assoc. reflexivity.
+Qed.
+
+Lemma parse_field_path_go (path : str) : parse_field_path path = parse_go path [] false [].
+Proof. destruct path; reflexivity. Qed.
+
+Lemma parse_format_roundtrip (p : list str) :
+  p <> [] -> Forall (fun s => s <> []) p -> parse_field_path (format_field_path p) = Ok p.
+Proof. intros H1 H2. rewrite parse_field_path_go. apply (parse_go_format p [] H1 H2). Qed.
+
+Lemma plain_spec (s : str) : plain s = true <-> s <> [] /\ no_special s.
+Proof.
+  unfold plain. destruct s as [|c r].
+  - split; [discriminate | intros [H _]; contradiction].
+  - rewrite negb_true_iff, needs_quote_false. split; [intros H; split; [discriminate | exact H] | intros [_ H]; exact H].
+Qed.
+
+Lemma parse_plain (s : str) : plain s = true -> parse_field_path s = Ok [s].
+Proof.
+  intros H. apply plain_spec in H as [Hne Hns]. rewrite parse_field_path_go.
+  rewrite <- (app_nil_r s) at 1. rewrite parse_go_unquoted by exact Hns.
+  cbn [app]. apply parse_go_after_seg_nil. exact Hne.
+Qed.
+
+(* ------------------------------------------------------------------ B. resolve *)
+
+(* [addressed fs chain]: chain = f1 :: f2 :: ... where f1 is the first field of fs carrying its name,
+   f2 the first child of f1 carrying its name, ... : the chain a name path designates. *)
+Inductive addressed : list field -> list field -> Prop :=
+| addr_one fs f : find_name (fname f) fs = Some f -> addressed fs [f]
+| addr_cons fs f rest : find_name (fname f) fs = Some f -> addressed (fch f) rest -> addressed fs (f :: rest).
+
+Lemma addressed_nonempty fs chain : addressed fs chain -> chain <> [].
+Proof. intros H; inversion H; discriminate. Qed.
+
+Lemma fresolve_addressed (f : field) (rest : list field) :
+  addressed (fch f) rest -> fresolve f (map fname rest) = Some (f :: rest).
+Proof.
+  revert f. induction rest as [|g r IH]; intros f H; [inversion H|].
+  inversion H as [fs g' Hf | fs g' r' Hf Hr]; subst.
+  - cbn [map fresolve]. rewrite Hf. reflexivity.
+  - cbn [map fresolve]. rewrite Hf. rewrite (IH g Hr). reflexivity.
+Qed.
+
+Lemma resolve_addressed (s : schema) (chain : list field) :
+  addressed s chain -> Forall (fun f => fname f <> []) chain ->
+  resolve s (format_field_path (map fname chain)) = Some chain.
+Proof.
+  intros Ha Hne. unfold resolve.
+  rewrite parse_format_roundtrip.
+  - inversion Ha as [fs f Hf | fs f rest Hf Hr]; subst; cbn [map]; rewrite Hf.
+    + reflexivity.
+    + apply fresolve_addressed. exact Hr.
+  - pose proof (addressed_nonempty _ _ Ha). destruct chain; [contradiction | discriminate].
+  - apply Forall_map. exact Hne.
+Qed.
+
+Lemma last_cons_default {A} (x : A) (l : list A) (d d' : A) : last (x :: l) d = last (x :: l) d'.
+Proof. revert x. induction l as [|y r IH]; intros x; [reflexivity|]. cbn [last]. apply IH. Qed.
+
+Lemma sfield_addressed (s : schema) (chain : list field) (d : field) :
+  addressed s chain -> Forall (fun f => fname f <> []) chain ->
+  sfield s (format_field_path (map fname chain)) = Some (last chain d).
+Proof.
+  intros Ha Hne. unfold sfield. rewrite (resolve_addressed s chain Ha Hne).
+  pose proof (addressed_nonempty _ _ Ha). destruct chain as [|x l]; [contradiction|].
+  f_equal. apply last_cons_default.
+Qed.
+
+(* sibling names pairwise distinct, at every level *)
+Fixpoint names_unique_f (f : field) : bool :=
+  match f with Fld _ ch => nodup_by str_eqb (map fname ch) && forallb names_unique_f ch end.
+Definition names_unique (s : schema) : bool := nodup_by str_eqb (map fname s) && forallb names_unique_f s.
+
+Lemma nodup_by_find (fs : list field) (f : field) :
+  nodup_by str_eqb (map fname fs) = true -> In f fs -> find_name (fname f) fs = Some f.
+Proof.
+  induction fs as [|g r IH]; intros Hnd Hin; [contradiction|].
+  cbn [map nodup_by] in Hnd. apply andb_true_iff in Hnd as [Hg Hr].
+  unfold find_name. cbn [find]. destruct Hin as [-> | Hin].
+  - rewrite str_eqb_refl. reflexivity.
+  - destruct (str_eqb (fname g) (fname f)) eqn:E.
+    + exfalso. apply negb_true_iff in Hg.
+      assert (X : existsb (str_eqb (fname g)) (map fname r) = true).
+      { apply existsb_exists. exists (fname f). split; [apply in_map; exact Hin | exact E]. }
+      congruence.
+    + apply (IH Hr Hin).
+Qed.
+
+(* [descends fs chain]: chain is a root-to-node path of the forest (membership only) *)
+Inductive descends : list field -> list field -> Prop :=
+| desc_one fs f : In f fs -> descends fs [f]
+| desc_cons fs f rest : In f fs -> descends (fch f) rest -> descends fs (f :: rest).
+
+Lemma descends_addressed (fs : list field) (chain : list field) :
+  nodup_by str_eqb (map fname fs) = true -> forallb names_unique_f fs = true ->
+  descends fs chain -> addressed fs chain.
+Proof.
+  intros Hnd Hall Hd. revert Hnd Hall. induction Hd as [fs f Hin | fs f rest Hin Hd IH]; intros Hnd Hall.
+  - constructor. apply nodup_by_find; assumption.
+  - apply addr_cons; [apply nodup_by_find; assumption|].
+    assert (Hf : names_unique_f f = true) by (eapply forallb_forall in Hall; eauto).
+    destruct f as [a ch]. cbn [names_unique_f] in Hf. apply andb_true_iff in Hf as [H1 H2].
+    apply IH; assumption.
+Qed.
+
+(* field_ancestry_by_id returns a root-to-node path ending in a field with that id *)
+Lemma anc_rev_spec (id : Z) (f : field) :
+  forall pre p, anc_rev id pre f = Some p ->
+    exists chain, p = pre ++ chain /\ descends [f] chain /\ fid (last chain f) = id.
+Proof.
+  induction f as [a ch IH] using field_ind'. intros pre p H.
+  cbn [anc_rev] in H. destruct (Z.eqb (a_id a) id) eqn:E.
+  - inversion H; subst. exists [Fld a ch]. split; [reflexivity|]. split; [constructor; left; reflexivity|].
+    cbn. apply Z.eqb_eq. exact E.
+  - assert (G : forall cs, Forall (fun c => forall pre p, anc_rev id pre c = Some p ->
+                        exists chain, p = pre ++ chain /\ descends [c] chain /\ fid (last chain c) = id) cs ->
+              forall q, (fix go (cs : list field) : option (list field) :=
+                 match cs with
+                 | [] => None
+                 | c :: r => match go r with Some p => Some p | None => anc_rev id (pre ++ [Fld a ch]) c end
+                 end) cs = Some q ->
+              exists c chain, In c cs /\ q = (pre ++ [Fld a ch]) ++ chain /\ descends [c] chain /\ fid (last chain c) = id).
+    { induction cs as [|c r IHr]; intros Hall q Hq; [discriminate|].
+      inversion Hall as [|? ? Hc Hr]; subst.
+      destruct ((fix go (cs : list field) : option (list field) :=
+                 match cs with
+                 | [] => None
+                 | c :: r => match go r with Some p => Some p | None => anc_rev id (pre ++ [Fld a ch]) c end
+                 end) r) eqn:Er.
+      - inversion Hq; subst. destruct (IHr Hr _ eq_refl) as [c' [chain [Hin Hrest]]].
+        exists c', chain. split; [right; exact Hin | exact Hrest].
+      - destruct (Hc _ _ Hq) as [chain [H1 [H2 H3]]]. exists c, chain. split; [left; reflexivity|]. auto. }
+    destruct (G ch IH p H) as [c [chain [Hin [Hp [Hd Hl]]]]].
+    exists (Fld a ch :: chain). split; [rewrite Hp, <- app_assoc; reflexivity|].
+    assert (Hne : chain <> []) by (inversion Hd; discriminate).
+    split.
+    + apply desc_cons; [left; reflexivity|]. cbn [fch].
+      inversion Hd as [? ? Hi | ? ? ? Hi Hd']; subst.
+      * constructor. destruct Hi as [<- | []]. exact Hin.
+      * apply desc_cons; [destruct Hi as [<- | []]; exact Hin | exact Hd'].
+    + destruct chain as [|x l]; [contradiction|].
+      change (last (Fld a ch :: x :: l) (Fld a ch)) with (last (x :: l) (Fld a ch)).
+      rewrite (last_cons_default x l (Fld a ch) c). exact Hl.
+Qed.
+
+Lemma descends_weaken (fs gs chain : list field) :
+  (forall f, In f fs -> In f gs) -> descends fs chain -> descends gs chain.
+Proof.
+  intros H Hd. inversion Hd; subst; [constructor; auto | apply desc_cons; auto].
+Qed.
+
+Lemma field_ancestry_spec (s : schema) (id : Z) (p : list field) :
+  field_ancestry_by_id s id = Some p ->
+  descends s p /\ exists x l, p = x :: l /\ fid (last p x) = id.
+Proof.
+  unfold field_ancestry_by_id. revert p. induction s as [|c r IH]; intros p H; [discriminate|].
+  destruct ((fix go (cs : list field) : option (list field) :=
+     match cs with
+     | [] => None
+     | c :: r => match go r with Some p => Some p | None => anc_rev id [] c end
+     end) r) eqn:Er.
+  - inversion H; subst. destruct (IH _ eq_refl) as [Hd Hrest]. split; [|exact Hrest].
+    eapply descends_weaken; [|exact Hd]. intros f Hf. right. exact Hf.
+  - destruct (anc_rev_spec id c [] p H) as [chain [Hp [Hd Hl]]]. cbn [app] in Hp. subst p.
+    split.
+    + eapply descends_weaken; [|exact Hd]. intros f [<- | []]. left. reflexivity.
+    + assert (Hne : chain <> []) by (inversion Hd; discriminate).
+      destruct chain as [|x l]; [contradiction|]. exists x, l. split; [reflexivity|].
+      rewrite (last_cons_default x l x c). exact Hl.
+Qed.
+
+Fixpoint all_names_nonempty_f (f : field) : bool :=
+  match f with Fld a ch => negb (is_nil (a_name a)) && forallb all_names_nonempty_f ch end.
+Definition all_names_nonempty (s : schema) : bool := forallb all_names_nonempty_f s.
+
+Lemma descends_names_nonempty (fs chain : list field) :
+  forallb all_names_nonempty_f fs = true -> descends fs chain -> Forall (fun f => fname f <> []) chain.
+Proof.
+  intros Hall Hd. revert Hall. induction Hd as [fs f Hin | fs f rest Hin Hd IH]; intros Hall.
+  - constructor; [|constructor]. eapply forallb_forall in Hall; [|exact Hin].
+    destruct f as [a ch]. cbn in Hall. apply andb_true_iff in Hall as [H _].
+    unfold fname; cbn. destruct (a_name a); [discriminate | discriminate].
+  - assert (Hf : all_names_nonempty_f f = true) by (eapply forallb_forall in Hall; eauto).
+    destruct f as [a ch]. cbn [all_names_nonempty_f] in Hf. apply andb_true_iff in Hf as [H1 H2].
+    constructor; [unfold fname; cbn; destruct (a_name a); [discriminate | discriminate]|].
+    apply IH. exact H2.
+Qed.
+
+(* the path printed for an id leads back to a field with that id *)
+Lemma field_path_resolves (s : schema) (id : Z) (path : str) :
+  names_unique s = true -> all_names_nonempty s = true ->
+  field_path s id = Ok path ->
+  exists f, sfield s path = Some f /\ fid f = id.
+Proof.
+  intros Hu Hn H. unfold field_path in H.
+  destruct (field_ancestry_by_id s id) as [anc|] eqn:E; [|discriminate].
+  inversion H; subst path. destruct (field_ancestry_spec s id anc E) as [Hd [x [l [Hp Hl]]]].
+  unfold names_unique in Hu. apply andb_true_iff in Hu as [Hu1 Hu2].
+  pose proof (descends_addressed s anc Hu1 Hu2 Hd) as Ha.
+  pose proof (descends_names_nonempty s anc Hn Hd) as Hne.
+  exists (last anc x). split; [apply sfield_addressed; assumption | exact Hl].
+Qed.
+
+
+(* ------------------------------------------------------------------ E. Projection: id sets *)
+
+Lemma zmem_in (x : Z) (l : list Z) : zmem x l = true <-> In x l.
+Proof.
+  unfold zmem. rewrite existsb_exists. split.
+  - intros [y [Hy E]]. apply Z.eqb_eq in E. subst. exact Hy.
+  - intros H. exists x. split; [exact H | apply Z.eqb_refl].
+Qed.
+
+Lemma zmem_false (x : Z) (l : list Z) : zmem x l = false <-> ~ In x l.
+Proof. rewrite <- zmem_in. destruct (zmem x l); split; congruence. Qed.
+
+Lemma zs_insert_in (x y : Z) (l : list Z) : In x (zs_insert y l) <-> x = y \/ In x l.
+Proof.
+  induction l as [|z r IH]; cbn [zs_insert].
+  - cbn. intuition.
+  - destruct (y <? z)%Z eqn:E1; [cbn; intuition|].
+    destruct (y =? z)%Z eqn:E2.
+    + apply Z.eqb_eq in E2. subst. cbn. intuition.
+    + cbn [In]. rewrite IH. intuition.
+Qed.
+
+Lemma zs_union_in (x : Z) (a b : list Z) : In x (zs_union a b) <-> In x a \/ In x b.
+Proof.
+  unfold zs_union. revert a. induction b as [|y r IH]; intros a; cbn [fold_left].
+  - cbn. intuition.
+  - rewrite IH, zs_insert_in. cbn [In]. intuition.
+Qed.
+
+Lemma zs_of_list_in (x : Z) (l : list Z) : In x (zs_of_list l) <-> In x l.
+Proof. unfold zs_of_list. change (fold_left (fun acc x0 => zs_insert x0 acc) l []) with (zs_union [] l).
+  rewrite zs_union_in. cbn. intuition. Qed.
+
+Lemma zs_inter_in (x : Z) (a b : list Z) : In x (zs_inter a b) <-> In x a /\ In x b.
+Proof. unfold zs_inter. rewrite filter_In, zmem_in. reflexivity. Qed.
+
+Lemma zs_diff_in (x : Z) (a b : list Z) : In x (zs_diff a b) <-> In x a /\ ~ In x b.
+Proof. unfold zs_diff. rewrite filter_In, negb_true_iff, zmem_false. reflexivity. Qed.
+
+Lemma zs_remove_in (x y : Z) (l : list Z) : In x (zs_remove y l) <-> In x l /\ x <> y.
+Proof.
+  unfold zs_remove. rewrite filter_In, negb_true_iff, Z.eqb_neq. intuition.
+Qed.
+
+(* canonical form: strictly increasing lists; two of them with the same members are equal *)
+Fixpoint zs_sorted (l : list Z) : Prop :=
+  match l with
+  | [] => True
+  | x :: r => (forall y, In y r -> (x < y)%Z) /\ zs_sorted r
+  end.
+
+Lemma zs_insert_sorted (x : Z) (l : list Z) : zs_sorted l -> zs_sorted (zs_insert x l).
+Proof.
+  induction l as [|z r IH]; intros H; cbn [zs_insert].
+  - cbn. split; [intros y []|exact I].
+  - destruct H as [Hz Hr]. destruct (x <? z)%Z eqn:E1.
+    + apply Z.ltb_lt in E1. cbn [zs_sorted]. split; [|split; assumption].
+      intros y [<- | Hy]; [exact E1 | specialize (Hz y Hy); lia].
+    + destruct (x =? z)%Z eqn:E2; [cbn [zs_sorted]; split; assumption|].
+      apply Z.ltb_ge in E1. apply Z.eqb_neq in E2.
+      cbn [zs_sorted]. split; [|apply IH; exact Hr].
+      intros y Hy. apply zs_insert_in in Hy as [-> | Hy]; [lia | apply Hz; exact Hy].
+Qed.
+
+Lemma zs_union_sorted (a b : list Z) : zs_sorted a -> zs_sorted (zs_union a b).
+Proof.
+  unfold zs_union. revert a. induction b as [|y r IH]; intros a Ha; cbn [fold_left]; [exact Ha|].
+  apply IH. apply zs_insert_sorted. exact Ha.
+Qed.
+
+Lemma filter_sorted (p : Z -> bool) (l : list Z) : zs_sorted l -> zs_sorted (filter p l).
+Proof.
+  induction l as [|z r IH]; intros H; [exact I|]. destruct H as [Hz Hr]. cbn [filter].
+  destruct (p z); [|apply IH; exact Hr]. cbn [zs_sorted]. split; [|apply IH; exact Hr].
+  intros y Hy. apply filter_In in Hy as [Hy _]. apply Hz. exact Hy.
+Qed.
+
+Lemma zs_sorted_ext (a b : list Z) :
+  zs_sorted a -> zs_sorted b -> (forall x, In x a <-> In x b) -> a = b.
+Proof.
+  revert b. induction a as [|x r IH]; intros b Ha Hb Hext.
+  - destruct b as [|y s]; [reflexivity|]. exfalso. apply (proj2 (Hext y)). left. reflexivity.
+  - destruct b as [|y s]; [exfalso; apply (proj1 (Hext x)); left; reflexivity|].
+    destruct Ha as [Hx Hr]. destruct Hb as [Hy Hs].
+    assert (E : x = y).
+    { destruct (proj1 (Hext x) (or_introl eq_refl)) as [E | Hin]; [symmetry; exact E|].
+      destruct (proj2 (Hext y) (or_introl eq_refl)) as [E | Hin2]; [exact E|].
+      specialize (Hx y Hin2). specialize (Hy x Hin). lia. }
+    subst y. f_equal. apply IH; [exact Hr | exact Hs|].
+    intros z. split; intros Hz.
+    + destruct (proj1 (Hext z) (or_intror Hz)) as [E | H']; [|exact H']. subst z. specialize (Hx x Hz). lia.
+    + destruct (proj2 (Hext z) (or_intror Hz)) as [E | H']; [|exact H']. subst z. specialize (Hy x Hz). lia.
+Qed.
+
+Definition p_flags (p : projection) : bool * bool * bool * bool := (p_rowid p, p_rowaddr p, p_lastupd p, p_created p).
+Definition p_equiv (p q : projection) : Prop := (forall x, In x (p_ids p) <-> In x (p_ids q)) /\ p_flags p = p_flags q.
+Definition p_wf (p : projection) : Prop := zs_sorted (p_ids p).
+
+Lemma p_equiv_eq (p q : projection) : p_wf p -> p_wf q -> p_equiv p q -> p = q.
+Proof.
+  intros Hp Hq [Hi Hf]. destruct p, q. unfold p_flags in Hf. cbn in *. inversion Hf; subst.
+  f_equal. apply zs_sorted_ext; assumption.
+Qed.
+
+Lemma union_projection_wf p q : p_wf p -> p_wf (union_projection p q).
+Proof. unfold p_wf. intros H. cbn. apply zs_union_sorted. exact H. Qed.
+Lemma intersect_projection_wf p q : p_wf p -> p_wf (intersect_projection p q).
+Proof. unfold p_wf. intros H. cbn. apply filter_sorted. exact H. Qed.
+Lemma subtract_projection_wf p q : p_wf p -> p_wf (subtract_projection p q).
+Proof. unfold p_wf. intros H. cbn. apply filter_sorted. exact H. Qed.
+
+Lemma union_projection_spec p q x :
+  In x (p_ids (union_projection p q)) <-> In x (p_ids p) \/ In x (p_ids q).
+Proof. cbn. apply zs_union_in. Qed.
+Lemma intersect_projection_spec p q x :
+  In x (p_ids (intersect_projection p q)) <-> In x (p_ids p) /\ In x (p_ids q).
+Proof. cbn. apply zs_inter_in. Qed.
+Lemma subtract_projection_spec p q x :
+  In x (p_ids (subtract_projection p q)) <-> In x (p_ids p) /\ ~ In x (p_ids q).
+Proof. cbn. apply zs_diff_in. Qed.
+
+Ltac proj_law :=
+  split;
+  [ intros x;
+    repeat first [rewrite union_projection_spec | rewrite intersect_projection_spec | rewrite subtract_projection_spec];
+    tauto
+  | unfold p_flags; cbn;
+    repeat match goal with |- context [?f ?p] =>
+      match f with p_rowid => destruct (p_rowid p) | p_rowaddr => destruct (p_rowaddr p)
+                 | p_lastupd => destruct (p_lastupd p) | p_created => destruct (p_created p) end end;
+    reflexivity ].
+
+Lemma proj_union_idem p : p_equiv (union_projection p p) p.
+Proof. proj_law. Qed.
+Lemma proj_inter_idem p : p_equiv (intersect_projection p p) p.
+Proof. proj_law. Qed.
+Lemma proj_union_comm p q : p_equiv (union_projection p q) (union_projection q p).
+Proof. proj_law. Qed.
+Lemma proj_inter_comm p q : p_equiv (intersect_projection p q) (intersect_projection q p).
+Proof. proj_law. Qed.
+Lemma proj_union_assoc p q r : p_equiv (union_projection (union_projection p q) r) (union_projection p (union_projection q r)).
+Proof. proj_law. Qed.
+Lemma proj_union_subtract p q : p_equiv (subtract_projection (union_projection p q) q) (subtract_projection p q).
+Proof. proj_law. Qed.
+Lemma proj_subtract_union p q r :
+  p_equiv (subtract_projection p (union_projection q r)) (intersect_projection (subtract_projection p q) (subtract_projection p r)).
+Proof. proj_law. Qed.
+Lemma proj_inter_union_distr p q r :
+  p_equiv (intersect_projection p (union_projection q r)) (union_projection (intersect_projection p q) (intersect_projection p r)).
+Proof. proj_law. Qed.
+Lemma proj_subtract_self p : forall x, ~ In x (p_ids (subtract_projection p p)).
+Proof. intros x. rewrite subtract_projection_spec. tauto. Qed.
+Lemma proj_absorb p q : p_equiv (intersect_projection p (union_projection p q)) p.
+Proof. proj_law. Qed.
+
+(* union_column adds the ids of the resolved chain and of every descendant of its last field *)
+Definition is_system_column (col : str) : bool :=
+  str_eqb col ROW_ID || str_eqb col ROW_ADDR || str_eqb col ROW_LAST_UPDATED || str_eqb col ROW_CREATED.
+
+Lemma union_column_data (base : schema) (p p' : projection) (col : str) (e : bool) :
+  is_system_column col = false ->
+  union_column base p col e = Ok p' ->
+  p_flags p' = p_flags p /\
+  match resolve base col with
+  | Some chain => forall x, In x (p_ids p') <-> In x (p_ids p) \/ In x (map fid chain)
+                                    \/ In x (fdesc_ids (last chain (Fld (mkA 0 0 [] LStruct false [] 0 false) [])))
+  | None => e = false /\ p' = p
+  end.
+Proof.
+  unfold is_system_column. intros Hs H. apply orb_false_iff in Hs as [Hs H4]. apply orb_false_iff in Hs as [Hs H3].
+  apply orb_false_iff in Hs as [H1 H2]. unfold union_column in H. rewrite H1, H2, H3, H4 in H.
+  destruct (resolve base col) as [chain|] eqn:Er.
+  - inversion H; subst p'. split; [reflexivity|]. cbn [p_ids]. intros x.
+    destruct (rev chain) as [|lastf r] eqn:Erev.
+    + assert (chain = []) by (apply (f_equal (@rev field)) in Erev; rewrite rev_involutive in Erev; exact Erev).
+      subst chain. rewrite zs_union_in. cbn. intuition.
+    + assert (Hc : chain = rev r ++ [lastf]).
+      { apply (f_equal (@rev field)) in Erev. rewrite rev_involutive in Erev. exact Erev. }
+      rewrite Hc, last_last. rewrite !zs_union_in. rewrite <- Hc. tauto.
+  - destruct e; [discriminate|]. inversion H; subst. split; [reflexivity | split; reflexivity].
+Qed.
+
+Lemma union_column_wf base p p' col e : p_wf p -> union_column base p col e = Ok p' -> p_wf p'.
+Proof.
+  unfold p_wf, union_column. intros Hp H.
+  repeat match type of H with (if ?c then _ else _) = _ => destruct c; [inversion H; subst; exact Hp|] end.
+  destruct (resolve base col) as [chain|].
+  - inversion H; subst. cbn [p_ids]. destruct (rev chain); repeat apply zs_union_sorted; exact Hp.
+  - destruct e; [discriminate|]. inversion H; subst. exact Hp.
+Qed.
